@@ -1,20 +1,7 @@
 (* C09 — proofs about the end-of-stream decision logic (Conc/TlsEof.v), the pump (Conc/TlsPump.v) and the ideal
    record layer (Conc/IdealTls.v). *)
 From Coq Require Import ZArith List Bool Lia ZifyBool.
-From EN Require Import Lib.Bytes Conc.TlsBase Conc.TlsPump Conc.TlsEof Conc.IdealTls Gen.ParamsC09 Gen.ParamsC08 Proofs.Ideal_proofs.
-(* the proofs must hold whatever the regenerated flag says *)
-Opaque recheck_after_recv_lock send_lock_only_if_pending.
-Ltac flush_cases :=
-  unfold flush_pc in *;
-  repeat match goal with
-  | H : context [send_lock_only_if_pending && wbio_empty ?s] |- _ =>
-      let E := fresh "Esk" in destruct (send_lock_only_if_pending && wbio_empty s) eqn:E
-  | |- context [send_lock_only_if_pending && wbio_empty ?s] =>
-      let E := fresh "Esk" in destruct (send_lock_only_if_pending && wbio_empty s) eqn:E
-  end.
-Ltac go_recv H sn :=
-  unfold go in H; destruct (recv_lock _) eqn:?L; [discriminate |];
-  destruct (recheck_after_recv_lock && negb (Nat.eqb (feeds _) sn)).
+From EN Require Import Lib.Bytes Conc.TlsBase Conc.TlsPump Conc.TlsEof Conc.IdealTls Gen.ParamsC09 Proofs.Ideal_proofs Proofs.Tls_tactics.
 
 
 (* ------------------------------------------------------------------ decision tables (finite case analysis) *)
@@ -59,6 +46,23 @@ Proof.
   intros e H. apply is_ssl_eof_error_char in H. destruct H as [-> | ->]; split; vm_compute; reflexivity.
 Qed.
 
+Section PumpFacts.
+Variable fl : flags.
+Notation flush_pc := (flush_pc fl).
+Notation pcall := (pcall fl).
+Notation after_flush := (after_flush fl).
+Notation go := (go fl).
+Notation step := (step fl).
+Notation settle_n := (settle_n fl).
+Notation settle := (settle fl).
+Notation retry := (retry fl).
+Notation start := (start fl).
+Notation run_method := (run_method fl).
+Notation sys_step := (sys_step fl).
+Notation sys_run := (sys_run fl).
+Notation run_op := (run_op fl).
+Notation run_ops := (run_ops fl).
+
 (* ------------------------------------------------------------------ the pump reports what the SSL object said *)
 
 Lemma go_end : forall m s p s' r a, go m s p = Some (s', PEnd r, a) -> exists v, r = ROk v.
@@ -93,10 +97,11 @@ Proof.
     try (apply go_end in H; destruct H as [v Hv]; discriminate).
   - (* PCall, LSsl *)
     destruct (negb _); [inversion H |].
-    destruct (a_out x) eqn:Eo.
-    + destruct m; cbv zeta in H; try (inversion H; fail).
-      match type of H with context [match ?d with [] => Some _ | _ :: _ => Some _ end] => destruct d end; inversion H.
-    + inversion H.
+    destruct (a_out x) eqn:Eo; cbv zeta in H.
+    + destruct m; try (flush_cases; inversion H; fail).
+      match type of H with context [match ?d with [] => Some _ | _ :: _ => Some _ end] => destruct d end;
+        flush_cases; inversion H.
+    + flush_cases; inversion H.
     + inversion H.
     + inversion H; subst. eauto.
     + inversion H.
@@ -104,11 +109,11 @@ Proof.
   - destruct t; inversion H.
   - destruct t as [d | | | | bt]; try discriminate; cbv zeta in H.
     + destruct k; cbn [after_flush] in H; try (inversion H; fail).
-      unfold pcall in H. destruct m; try (inversion H; fail). destruct (deque _); inversion H.
+      unfold pcall in H. destruct m; try (inversion H; fail). destruct (deque _); flush_cases; inversion H.
     + destruct k; inversion H.
   - destruct t; inversion H.
   - destruct t as [d | | | | bt]; try discriminate; cbv zeta in H.
-    destruct d; unfold pcall in H; destruct m; try (inversion H; fail); destruct (deque _); inversion H.
+    destruct d; unfold pcall in H; destruct m; try (inversion H; fail); destruct (deque _); flush_cases; inversion H.
 Qed.
 
 Lemma retry_cons : forall m b s p a answers, (forall r, p <> PEnd r) ->
@@ -150,7 +155,8 @@ Proof.
   destruct (retry m b s1 p1 answers) as [[[s2 r] a2] rest2] eqn:Re.
   inversion H; subst.
   apply retry_ssl_error_from_oracle in Re. destruct Re as [Hp | Hx]; [| exact Hx].
-  subst p1. apply settle_end_ssl in Se. unfold pcall in Se. destruct m; try discriminate. destruct (deque s); discriminate.
+  subst p1. apply settle_end_ssl in Se. unfold pcall in Se. destruct m; try discriminate.
+  destruct (deque s); try discriminate; flush_cases; discriminate.
 Qed.
 
 (* what recv reports as a clean end-of-stream, in terms of the SSL object's own answers *)
@@ -203,8 +209,12 @@ Proof.
   assert (Hstep : exists k, match k with KLoop => False | _ => True end /\
             step MUnwrap 0 (sh st) PCall (LSsl a) = Some (set_wbio (sh st) w, PFlush k, [])).
   { destruct Hout as [[v Hv] | Hwr].
-    - exists (KRet v). split; [exact I |]. unfold step. rewrite Hm, Harg, Hv, <- Ew. reflexivity.
-    - exists (KRead (feeds (sh st))). split; [exact I |]. unfold step. rewrite Hm, Harg, Hwr, <- Ew. reflexivity. }
+    - exists (KRet v). split; [exact I |]. unfold step. rewrite Hm, Harg, Hv, <- Ew.
+      cbn [meth_eqb expected_arg Nat.eqb andb negb]. unfold flush_pc, wbio_empty. cbn [wbio set_wbio].
+      destruct w; [congruence |]. rewrite andb_false_r. reflexivity.
+    - exists (KRead (feeds (sh st))). split; [exact I |]. unfold step. rewrite Hm, Harg, Hwr, <- Ew.
+      cbn [meth_eqb expected_arg Nat.eqb andb negb]. unfold flush_pc, wbio_empty. cbn [wbio set_wbio feeds].
+      destruct w; [congruence |]. rewrite andb_false_r. reflexivity. }
   destruct Hstep as [k [Hk Hst]]. rewrite Hst, (Hgo k Hk) in H.
   destruct (retry MUnwrap 0 _ (PSending k) answers) as [[[s3 r] a3] rest3].
   cbn [app] in H.
@@ -220,6 +230,8 @@ Lemma nonstd_close_no_unwrap : forall st answers,
 Proof.
   intros st answers Hc. unfold run_op. rewrite Hc. reflexivity.
 Qed.
+
+End PumpFacts.
 
 (* ------------------------------------------------------------------ blocking transport *)
 
